@@ -32,6 +32,39 @@ def has_cond(cs, pred, pol):
     return False
 
 
+def _none_cmp(t, name):
+    """``name is None`` -> 'is'; ``name is not None`` -> 'isnot'; else None."""
+    if isinstance(t, ast.Compare) and len(t.ops) == 1 and norm(t.left) == name and isinstance(t.comparators[0], ast.Constant) \
+            and t.comparators[0].value is None:
+        if isinstance(t.ops[0], (ast.Is, ast.Eq)):
+            return 'is'
+        if isinstance(t.ops[0], (ast.IsNot, ast.NotEq)):
+            return 'isnot'
+    return None
+
+
+def implies_absent(cs, name):
+    """The path conditions say ``name`` is None / falsy (``not name``, ``name is None``)."""
+    for t, p in cs:
+        if norm(t) == name and p is False:
+            return True
+        k = _none_cmp(t, name)
+        if (k == 'is' and p is True) or (k == 'isnot' and p is False):
+            return True
+    return False
+
+
+def implies_present(cs, name):
+    """The path conditions say ``name`` is truthy / not None."""
+    for t, p in cs:
+        if norm(t) == name and p is True:
+            return True
+        k = _none_cmp(t, name)
+        if (k == 'is' and p is False) or (k == 'isnot' and p is True):
+            return True
+    return False
+
+
 def cond_texts(cs):
     return ['%s%s' % ('' if p else 'not ', short(t, 60)) for t, p in cs]
 
